@@ -65,6 +65,11 @@ var c01Inputs = []moduleInput{
 	{"early error returns of methods with a non-nillable result (pointer source with useZeroValueOnPointerInconsistency, struct / basic / named results, nested helpers)", map[string]string{
 		"chk/chk.go": "package chk\n\nimport (\n\t\"example.org/m/p\"\n\t\"example.org/m/p/generated\"\n)\n\nvar _ p.C = &generated.CImpl{}\n",
 		"p/conv.go":   "package p\n\nimport \"strconv\"\n\ntype In struct{ A string }\ntype Out struct{ A int }\ntype Wrap struct{ I *In; L []*In }\ntype WrapOut struct{ I Out; L []Out }\ntype Num int\n\nfunc Atoi(s string) (int, error) { return strconv.Atoi(s) }\nfunc ToNum(s string) (Num, error) { i, err := strconv.Atoi(s); return Num(i), err }\n\n// goverter:converter\n// goverter:extend Atoi ToNum\n// goverter:useZeroValueOnPointerInconsistency\ntype C interface {\n\tConv(s *In) (Out, error)\n\tNested(s Wrap) (WrapOut, error)\n\tBasic(s *string) (int, error)\n\tNamed(s *string) (Num, error)\n\tPlain(s In) (Out, error)\n\tPtr(s *In) (*Out, error)\n}\n"}, []string{"./p"}, nil},
+	{"declared parameter order: context before the source, update target first (struct, function and variables format)", map[string]string{
+		"chk/chk.go": "package chk\n\nimport (\n\t\"example.org/m/p\"\n\t\"example.org/m/p/generated\"\n\t\"example.org/m/v\"\n)\n\nvar _ p.C = &generated.CImpl{}\nvar _ = v.ToOut(3, v.In{})\n",
+		"p/conv.go":   "package p\n\ntype In struct{ A int; B Raw }\ntype Out struct{ A int; B Cooked }\ntype Raw struct{ V int }\ntype Cooked struct{ V int }\ntype Lang string\n\n// goverter:converter\ntype C interface {\n\t// goverter:context lang\n\tConv(lang Lang, source In) Out\n\t// goverter:context lang\n\tParse(lang Lang, source Raw) Cooked\n\t// goverter:update target\n\t// goverter:context lang\n\tUpdate(target *Out, lang Lang, source In)\n\t// goverter:context lang\n\tBehind(source []In, lang Lang) []Out\n}\n",
+		"f/conv.go":   "package f\n\ntype In struct{ A int }\ntype Out struct{ A int }\n\n// goverter:converter\n// goverter:output:format function\n// goverter:output:file ./f.gen.go\n// goverter:output:package example.org/m/f\ntype C interface {\n\t// goverter:context n\n\tConvF(n int, source In) Out\n\t// goverter:context n\n\tConvFs(n int, source []In) []Out\n}\n",
+		"v/conv.go":   "package v\n\ntype In struct{ A int }\ntype Out struct{ A int }\n\n// goverter:variables\nvar (\n\t// goverter:context n\n\tToOut func(n int, source In) Out\n)\n"}, []string{"./p", "./f", "./v"}, nil},
 	{"converter method named like a generated helper", map[string]string{
 		"p/conv.go": "package p\n\ntype In struct{ A int }\ntype Out struct{ A int }\n\n// goverter:converter\ntype C interface {\n\tPInToPOut(s []In) []Out\n\tConv(s []*In) []*Out\n}\n"}, []string{"./p"}, nil},
 }
